@@ -622,10 +622,10 @@ theorem base_xdrWF (b : Base) (hw : b.WF) (ht : b.TY) (hs : b.Small) :
   cases hsh : b.shape with
   | nil =>
     obtain ⟨v, hv⟩ := prod_nil_data hw hsh
-    simp only [tmplOfBase, dataOfBase, hsh, hv, Xdr.WF]
+    simp only [tmplOfBase, dataOfBase, xValR_fun, xValR_eq, hsh, hv, Xdr.WF]
     exact ht v (by simp [hv])
   | cons n ns =>
-    simp only [tmplOfBase, dataOfBase, hsh, Xdr.WF, Bool.and_eq_true, beq_iff_eq, List.length_map,
+    simp only [tmplOfBase, dataOfBase, xValR_fun, xValR_eq, hsh, Xdr.WF, Bool.and_eq_true, beq_iff_eq, List.length_map,
       decide_eq_true_eq, List.all_eq_true, List.mem_map]
     have hl : b.data.length = prod (n :: ns) := by rw [← hsh]; exact hw.1
     refine ⟨⟨by rw [prod_eq]; exact hl, ?_⟩, ?_⟩
